@@ -472,3 +472,28 @@ def run_case(spec, idx, ctx):
             _run_fit(spec, idx, ctx)
         else:
             _run_shift(spec, idx, ctx)
+
+
+def summarize(all_cases, counters, extras):
+    import collections
+    import json
+
+    per = collections.Counter()
+    scans, dets = set(), set()
+    for c in all_cases:
+        if c.get("sig"):
+            try:
+                sig = json.loads(c["sig"])
+                per[sig[0] + ("" if c.get("nontrivial") else ":trivial")] += 1
+                if sig[0] == "com":
+                    scans.add(tuple(sig[1]))
+                    dets.add(tuple(sig[2]))
+            except Exception:
+                pass
+    return {
+        "cases_per_kind": dict(sorted(per.items())),
+        "distinct_scan_shapes_com": len(scans),
+        "distinct_detector_shapes_com": len(dets),
+        "tolerances_px": {"com_vs_oracle": TOL_COM, "paths_and_models": TOL_PATH, "batch": TOL_BATCH, "fit_float32": TOL_FIT, "fit_float64": TOL_FIT64, "roll_relative": TOL_ROLL},
+        "notes": {k: v for k, v in counters.items() if k.startswith("note:")},
+    }
